@@ -47,6 +47,11 @@ CHECKS['C16'] = ('model_checking', '§5 C16',
     'Python lists/itertools are the reference; infinite generators are modelled by a 64-element prefix; look-ahead constants are part of the oracle (window width, chunk size, 2 for group, 1 otherwise).',
     'explicit-state BFS with per-transition conformance + exhaustive pipeline enumeration with an evaluation-count oracle')
 
+CHECKS['C20'] = ('model_checking', '§5 C20',
+    'JSON: documents (20 atoms incl. escapes, controls, non-BMP, extreme doubles; arrays and objects to nesting depth 1/2) are built with the constructors, serialised and parsed by Python json (strict, duplicate-key and NaN rejecting), and Python-produced texts in three styles are deserialised, compared in-language and re-serialised; malformed texts must give error values. Dates: every Julian day in +-3,000,000 (thorough; quick: +-40 days around every 400-year/leap/century boundary plus a stride) is checked in-language for round trip, strict order and weekday, and calendar fields are compared with a civil-from-days reference (self-checked against datetime.date). Datetime<->unix at minute/hour/day boundaries with exact binary fractions. Fractions: constructor normalisation on the full product of a 17-value pool (incl. 2^62+1, +-2^64, 2^70-1, zero denominators) and all arithmetic against fractions.Fraction. to_int/format/digits in every base 2..36 over the integer pool; chr/code_point for every scalar value 0..0x10FFFF (surrogates and beyond must be errors).',
+    'Python json / fractions / int / chr and the civil-from-days algorithm are the references; JSON numbers compared as doubles, key order ignored; datetime fractions restricted to exactly representable ones.',
+    'bounded-exhaustive enumeration vs independent reference implementations (incl. a full sweep of the documented day range)')
+
 NA = {
 }
 
